@@ -183,7 +183,8 @@ func main() {
 		Property: "C07", Level: "exploration",
 		Rule: "pairs: every ordered pair of (height,maxHeightGenerated,maxHeightPrevoted) in [0,R]^3 x same/different generator (R=6 quick, 11 thorough; exhaustive) plus random uint32 pairs with boundary values and field ties, key = region of the LIP-0014 relation; " +
 			"chain: BFT vote state built through liskbft.Module for simulated chains with honest and faulty generators, every generator probed at every step, key = (position of the generator's last header relative to the 3*batchSize window, region, flagged); " +
-			"forkchoice/process: tip x incoming x receive-time enumeration, key = (LIP-0014 class, predicate vector); priority: (maxHeightPrevoted,height) pairs incl. ties, key = order relation",
+			"forkchoice/process: tip x incoming x receive-time enumeration, key = (LIP-0014 class, predicate vector); priority: (maxHeightPrevoted,height) pairs incl. ties, key = order relation; " +
+			"recorded: the tip becomes the tip through Executer.process itself (from a peer / as the node's own block) after its slot, then a sibling from the current slot must win the tie-break (the node must hold the receive time of the current tip, not a stale one), key = (path, stale value)",
 		Assumptions: []string{
 			"fork choice reads time.Now(): block time is 10^4 s, the genesis timestamp is chosen so that the current real time is mid-slot; a case closer than 60 s to a slot edge is skipped and counted as inconclusive",
 			"Executer.process is observed through its log lines (one per branch) and lastBlockReceived; incoming blocks carry an empty signature so that no branch mutates the chain",
@@ -202,6 +203,7 @@ func main() {
 		forkChoiceEnum(c)
 		priority(c)
 		executerOrder(c)
+		recordedReceiveTime(c)
 	})
 }
 
